@@ -361,7 +361,7 @@ theorem c06_quantile_minmax_only_fixed :
       (fun a => (aggregate true .quantile [(1, 1)] false a).map (fun r => r.buckets.map (·.quantiles)))) = some [[Val.int 3]] := by
   decide
 
-/-! ## the code as found drops documents from time-series results: group without field
+/-! ## the code as originally found dropped documents from time-series results: group without field (repaired in 51e68c6)
 
 With group-by + field + a time interval, a matching document that has the group but not the field is tallied in the
 bin *without time* (`groupByNotExists[groupBySource]++`), and `Aggregate` skips that bin for time series
@@ -405,12 +405,12 @@ open SV.Extracted.C06
 /-- the reservoir limit the model and the driver use is the source's -/
 theorem c06_x_limit : SV.Extracted.C06.maxHistogramSamples = SV.Agg.maxHistogramSamples ∧ dummyMID = 0 := by decide
 
-/-- `Quantile`: order of the early returns (NaN on no samples comes first - the defect above) and the index formula -/
+/-- `Quantile` has the repaired order of early returns (commit 4dd0369: NaN on `Total == 0`, then the 0 / 1
+shortcuts, then NaN on no samples) - `fixed = true` is THE model; the `fixed = false` definitions are kept only for
+the historical witnesses - and the index formula -/
 theorem c06_x_quantile :
-    ((quantileConds = ["quantile < 0 || quantile > 1", "len(h.Samples) == 0", "quantile == 1", "quantile == 0"] ∧
-        quantileFixed = false) ∨
-      (quantileConds = ["quantile < 0 || quantile > 1", "h.Total == 0", "quantile == 1", "quantile == 0",
-        "len(h.Samples) == 0"] ∧ quantileFixed = true)) ∧
+    (quantileConds = ["quantile < 0 || quantile > 1", "h.Total == 0", "quantile == 1", "quantile == 0",
+        "len(h.Samples) == 0"] ∧ quantileFixed = true) ∧
     SV.Extracted.C06.quantileIndex = [":= int(float64(len(h.Samples)-1)*quantile + 0.5)"] := by decide
 
 /-- `SamplesContainer.Merge` / `InsertNTimes` / `InsertSample` / `NewSamplesContainers` have the modelled shape -/
@@ -430,12 +430,11 @@ theorem c06_x_aggregate :
     collectSamplesExpr = [":= query.Func == seq.AggFuncQuantile && haveNotMinMaxQuantiles(query.Quantiles)"] ∧
     innerQuantileConds = ["quantile > minQuantile && quantile < maxQuantile"] := by decide
 
-/-- `TwoSourceAggregator.Next`: how a document of a group without the field is tallied (as found / repaired);
-the model and the driver follow the extracted flag -/
+/-- `TwoSourceAggregator.Next` tallies a document of a group without the field under its own time bin (commit
+51e68c6) - `perBin = true` is THE model; `perBin = false` is kept only for the historical witness -/
 theorem c06_x_group_not_exists :
-    (groupNotExistsIncr = ["n.groupByNotExists[groupBySource]++"] ∧ groupNotExistsPerBin = false) ∨
-    (groupNotExistsIncr = ["n.groupByNotExists[AggBin[uint32]{MID: n.extractMID(seq.LID(lid)), Source: groupBySource}]++"] ∧
-      groupNotExistsPerBin = true) := by decide
+    groupNotExistsIncr = ["n.groupByNotExists[AggBin[uint32]{MID: n.extractMID(seq.LID(lid)), Source: groupBySource}]++"] ∧
+      groupNotExistsPerBin = true := by decide
 
 /-- histogram bucket rule of `iterateEvalTree`, accumulation in `MergeQPRs`, time bins of `provideExtractTimeFunc` -/
 theorem c06_x_hist :
